@@ -309,6 +309,21 @@ def _same(a, b):
     return a[:2] == b[:2]
 
 
+def _close_loop(loop):
+    """Let the finalizer tasks of abandoned async generators (e.g. the rest of a lazy filter after |first) finish,
+    then close the loop: nothing of the case outlives check_case."""
+    try:
+        for _ in range(4):
+            loop.run_until_complete(asyncio.sleep(0))
+            pending = asyncio.all_tasks(loop)
+            if not pending:
+                break
+            loop.run_until_complete(asyncio.gather(*pending, return_exceptions=True))
+        loop.run_until_complete(loop.shutdown_asyncgens())
+    finally:
+        loop.close()
+
+
 class _Plan:
     """What one family adapter hands to the runner."""
 
@@ -363,10 +378,7 @@ def _run_plan(case, plan):
                                want, ep, "wrapped" if flavour else "plain", got, cls, auto, name, plan.templates, di,
                                _show_data(case, di)), entry_point=ep, wrapped=flavour)
     finally:
-        try:
-            loop.run_until_complete(loop.shutdown_asyncgens())
-        finally:
-            loop.close()
+        _close_loop(loop)
     if not compared:
         raise core.Discard()
     nt = any(_NT.search(tag) for src in plan.templates.values() for tag in _TAG.findall(src))
